@@ -328,6 +328,40 @@ func randRune(r rsrc) rune {
 	}
 }
 
+// lookalikeText returns a text of Latin-1 characters whose code points, read as BYTES, look like
+// another encoding of some other text: the UTF-8 bytes of a random text ("Ã©" for "é"), optionally
+// behind the three characters of a UTF-8 byte order mark ("ï»¿") or the two of a UTF-16BE one ("þÿ").
+// A writer that stores such a text one byte per character and a reader that sniffs encodings from the
+// bytes disagree exactly on these; every single code point of them reads back fine on its own.
+func lookalikeText(r rsrc, maxRunes int) string {
+	var rs []rune
+	switch r.IntN(6) {
+	case 0:
+		rs = append(rs, 0xEF, 0xBB, 0xBF)
+	case 1:
+		rs = append(rs, 0xFE, 0xFF)
+	case 2:
+		rs = append(rs, 0xFF, 0xFE)
+	}
+	inner := randText(r, 1+maxRunes/3)
+	if r.IntN(3) == 0 { // keep it to text whose UTF-8 bytes are all printable Latin-1 (U+00A1..U+00FF lead/continuation)
+		var t []rune
+		for _, c := range inner {
+			if c >= 0xA1 && c < 0x800 {
+				t = append(t, c)
+			}
+		}
+		inner = string(t) + "é"
+	}
+	for _, b := range []byte(inner) {
+		rs = append(rs, rune(b))
+	}
+	if r.IntN(2) == 0 {
+		rs = append(rs, 'x')
+	}
+	return string(rs)
+}
+
 func randText(r rsrc, maxRunes int) string {
 	n := r.IntN(maxRunes + 1)
 	rs := make([]rune, n)
@@ -379,6 +413,9 @@ func (m *monitor) random() {
 		var a, p, fa int64
 		for i := 0; i < R/chunks; i++ {
 			s := randText(r, 24)
+			if i%8 == 7 {
+				s = lookalikeText(r, 24)
+			}
 			for _, x := range s {
 				if x >= 0x10000 {
 					a++
@@ -543,6 +580,9 @@ func (m *monitor) keywordsRoundTrip(base string, baseKw []string, kws []string, 
 func e2eText(r rsrc) string {
 	for {
 		s := randText(r, 12)
+		if r.IntN(5) == 0 {
+			s = lookalikeText(r, 12)
+		}
 		s = strings.Map(func(c rune) rune {
 			if c == ',' || c == ';' || c == '\r' {
 				return 'x'
@@ -689,7 +729,7 @@ func (m *monitor) endToEnd() {
 func main() {
 	vk.Run("C13", "exploration", func(t *vk.T) {
 		api.DisableConfigDir()
-		t.Rule("layer 1: all 1 112 064 Unicode scalar values, each alone and as a+c+b, through decode / encode / literal / hex routes (non-trivial = code point >= U+0080; distinct by construction); layer 2: seeded random texts of 0..24 code points mixing ASCII, BMP, private use, boundary and supplementary code points; layer 3: such texts as document properties and keywords of a copy of pkg/testdata/test.pdf, listed back through the API")
+		t.Rule("layer 1: all 1 112 064 Unicode scalar values, each alone and as a+c+b, through decode / encode / literal / hex routes (non-trivial = code point >= U+0080; distinct by construction); layer 2: seeded random texts of 0..24 code points mixing ASCII, BMP, private use, boundary and supplementary code points, every 8th a Latin-1 text whose code points read as bytes look like the UTF-8 / BOM-prefixed encoding of another text; layer 3: such texts as document properties and keywords of a copy of pkg/testdata/test.pdf, listed back through the API")
 		t.Assume("reference UTF-16BE encoding (BOM FE FF + big-endian code units, surrogate pairs for U+10000..U+10FFFF) is computed by the worker, not by pdfcpu")
 		t.Assume("end-to-end texts respect the API contracts: property values are not blank; keywords contain no ',' ';' CR and no leading/trailing white space (the keyword list is split on those and trimmed)")
 		t.Assume("bookmark titles, form values and annotation contents (named in the property text) are exercised by the C35-C37 workers, not here")
